@@ -54,8 +54,14 @@ def overlap(S):
 def intersection(S):
     ra = S.choice("ra", ["_", "A"])
     rb = S.choice("rb", ["_", "A"])
+    # region names are EQUAL strings, not the same object (names read from a document are built at run time; added after seed C18-8,
+    # which compared regions with `is`)
+    ra, rb = "".join(list(ra)), "".join(list(rb))
     fa, ha = S.bool("fa"), S.bool("ha")
     a, b = mk_rect(S, "a", ra, fa, ha), mk_rect(S, "b", rb)
+    if ra == "A" and rb == "A":
+        a.region, b.region = "".join(["A", ""]) + "", str(bytes([65]), "ascii")
+        S.ensure("mul.harness_regions_are_distinct_objects", a.region is not b.region and a.region == b.region)
     o1, o2 = S.call(lambda: a * b), S.call(lambda: b * a)
     S.ensure("mul.no_raise", o1.ok and o2.ok)
     if not (o1.ok and o2.ok):
@@ -75,6 +81,30 @@ def intersection(S):
         S.ensure("mul.positive_shape", sand(r.shape.w > 0, r.shape.h > 0))
         if r2 is not None:
             S.ensure("mul.symmetric_box", box_eq(R, box(r2)))
+
+
+@contract(P, functions=[G + "set_epsilon", G + "undefine_epsilon", G + "epsilon_defined", G + "distance_epsilon", G + "area_epsilon", G + "touches"])
+def the_tolerance_in_force_is_the_last_one_set(S):
+    """added after seed C18-7 (set_epsilon ignored once a tolerance was defined): 'within the distance tolerance' means the tolerance the
+    accessors report, which is the one set last; the contracts of this file set the class attributes directly and did not see the setter"""
+    e1, e2 = S.real("e1", pos=True), S.real("e2", pos=True)
+    ea2 = S.real("ea2", nonneg=True)
+    R = Rectangle
+    R.undefine_epsilon()
+    S.ensure("tolerance.undefined_at_first", not R.epsilon_defined())
+    o1 = S.call(R.set_epsilon, e1)
+    S.ensure("tolerance.defined_after_set", o1.ok and R.epsilon_defined() and seq(R.distance_epsilon(), e1) and
+             seq(R.area_epsilon() * R.area_epsilon(), e1) and R.area_epsilon() >= 0)
+    o2 = S.call(R.set_epsilon, e2, ea2)
+    S.ensure("tolerance.a_later_set_replaces_the_earlier_one", o2.ok and seq(R.distance_epsilon(), e2) and seq(R.area_epsilon(), ea2))
+    a, b = mk_rect(S, "a"), mk_rect(S, "b")
+    A, B = box(a), box(b)
+    gap_x = smax(A[0], B[0]) - smin(A[2], B[2])
+    gap_y = smax(A[1], B[1]) - smin(A[3], B[3])
+    t = S.call(a.touches, b)
+    S.ensure("tolerance.touches_uses_the_tolerance_in_force", t.ok and siff(t.value, sand(gap_x <= e2, gap_y <= e2)))
+    R.undefine_epsilon()
+    S.ensure("tolerance.undefined_after_undefine", not R.epsilon_defined())
 
 
 @contract(P, functions=[G + "is_inside", G + "point_inside", G + "touches"])
@@ -102,8 +132,14 @@ def containment_touching(S):
 def equality_duplicate(S):
     ra = S.choice("ra", ["_", "A"])
     rb = S.choice("rb", ["_", "A"])
+    # region names are EQUAL strings, not the same object (names read from a document are built at run time; added after seed C18-8,
+    # which compared regions with `is`)
+    ra, rb = "".join(list(ra)), "".join(list(rb))
     fa, ha = S.bool("fa"), S.bool("ha")
     a, b = mk_rect(S, "a", ra, fa, ha), mk_rect(S, "b", rb)
+    if ra == "A" and rb == "A":
+        a.region, b.region = "".join(["A", ""]) + "", str(bytes([65]), "ascii")
+        S.ensure("mul.harness_regions_are_distinct_objects", a.region is not b.region and a.region == b.region)
     o = S.call(lambda: a == b)
     same = sand(seq(a.center.x, b.center.x), seq(a.center.y, b.center.y), seq(a.shape.w, b.shape.w),
                 seq(a.shape.h, b.shape.h), ra == rb)
